@@ -46,8 +46,12 @@ int main(void){
   long i;
   n = VERIF_CHOICE(); ASSUME(0 <= n && n <= NMAX);
   many = VERIF_CHOICE() & 1;
+#ifdef ST_ARG     /* strides fixed per job (symbolic strides turn every slot access into a symbolic-offset byte access: no verdict in 40 min) */
+  arg_st = ST_ARG; res_st = ST_RES; id_st = ST_ID; fn_st = ST_FN; at_st = ST_AT * sizeof(myth_thread_attr_t);
+#else
   arg_st = (VERIF_CHOICE() & 1) ? 16 : 8; res_st = (VERIF_CHOICE() & 1) ? 16 : 8; id_st = (VERIF_CHOICE() & 1) ? 16 : 8;
   fn_st = (VERIF_CHOICE() & 1) ? 16 : 8; at_st = (VERIF_CHOICE() & 1) ? 2 * sizeof(myth_thread_attr_t) : sizeof(myth_thread_attr_t);
+#endif
   int have_ids = VERIF_CHOICE() & 1, have_res = VERIF_CHOICE() & 1, have_attrs = VERIF_CHOICE() & 1;
   for (i = 0; i < SLOTS + 2; i++) { argbuf[i] = 0x11; resbuf[i] = 0x22; idbuf[i] = 0x33; fnbuf[i] = 0; }
   attrbuf.guard0 = attrbuf.guard1 = 0x44;
